@@ -123,6 +123,20 @@ def gen(seed, tier):
             segs.append(seg(0, [g.f_long(20, icao, (hi << 13) | (r.getrandbits(13) & ~0x40 | 0x10), r.choice([0, (1 << 56) - 1]))]))
         cases.append(H("C05-q%d" % n, o, segs))
         n += 1
+    # in ONE reader run: consecutive replies of different aircraft whose altitude codes differ in exactly one bit (every data
+    # bit of the 13-bit field, M and Q kept): each is decoded from its own bits, nothing is remembered from the previous frame
+    for rep in range(3 if tier == "quick" else 30):
+        for bit in (0, 1, 2, 3, 5, 7, 8, 9, 10, 11, 12):
+            pool = r.sample(ICAOS, 4)
+            base = r.getrandbits(13) & ~0x40 | 0x10
+            codes = [base, base ^ (1 << bit), base, base ^ (1 << bit)]
+            lines = []
+            for a, c in zip(pool, codes):
+                hi = r.getrandbits(14)
+                lines.append(g.f_short(4, a, (hi << 13) | c) if r.random() < 0.7 else g.f_long(20, a, (hi << 13) | c, g.mb_any()))
+            o = {"U": 1} if bit % 2 else {}
+            cases.append(H("C05-n%d" % n, o, [seg(0, [g.f_df11(a, ca=5) for a in pool]), seg(0, lines)]))
+            n += 1
     return cases
 
 
